@@ -959,6 +959,42 @@ class SymReal(Sym):
         c.assume(z3.Implies(And_(Not_(self.nan), Not_(self.inf), self.v >= 0), z3.And(r >= 0, r * r == self.v)))
         return SymReal(If_(self.inf, ONE, r), Or_(self.nan, neg), And_(self.inf, Not_(neg)))
 
+    def log10(self):
+        """S-log10: the double-precision log10 as an uninterpreted, *weakly* monotone function (two arguments closer than
+        a relative 2^-20 may or may not be mapped to the same double), strictly increasing across arguments that are
+        further apart (by >= 2^-22 beyond a relative 2^-20, by >= 0.09 beyond a factor 1.25), sign as for log10, magnitude
+        within the double range [-324, 309]; 0 -> -inf, negative -> NaN, +inf -> +inf"""
+        c = cur()
+        r = z3.FreshReal('log10')
+        sv = z3.simplify(self.v)
+        if z3.is_rational_value(sv) and is_f(self.nan) and is_f(self.inf):
+            # concrete argument: the double the C library returns (keeps the queries linear when range ends are concrete)
+            f = float(sv.as_fraction())
+            if f > 0:
+                r = rv(math.log10(f))
+        fin = And_(Not_(self.nan), Not_(self.inf))
+        pos = And_(fin, self.v > 0)
+        apps = c.__dict__.setdefault('_log10_apps', [])
+        eps, step = z3.RealVal('1/1048576'), z3.RealVal('1/4194304')
+        big, bigstep = z3.RealVal('5/4'), z3.RealVal('9/100')       # log10(1.25) = 0.0969...
+        u53 = z3.RealVal('1/9007199254740992')                       # results are doubles: distinct ones are >= 2^-53 relative apart
+        absz = lambda t: If_(t < 0, -t, t)
+        dist = lambda p, q: If_(p < q, q - p, p - q)
+        for (a, apos, ra) in apps:
+            both = And_(pos, apos)
+            c.assume(z3.Implies(both, z3.And(z3.Implies(a <= self.v, ra <= r), z3.Implies(self.v <= a, r <= ra),
+                                             z3.Implies(self.v >= a * (1 + eps), r >= ra + step),
+                                             z3.Implies(a >= self.v * (1 + eps), ra >= r + step),
+                                             z3.Or(ra == r, z3.And(dist(ra, r) >= absz(r) * u53, dist(ra, r) >= absz(ra) * u53)),
+                                             z3.Implies(self.v >= a * big, r >= ra + bigstep),
+                                             z3.Implies(a >= self.v * big, ra >= r + bigstep))))
+        c.assume(z3.Implies(pos, z3.And(z3.Implies(self.v >= 1, r >= 0), z3.Implies(self.v <= 1, r <= 0), r >= -324, r <= 309)))
+        apps.append((self.v, pos, r))
+        neg = And_(Not_(self.nan), self.v < 0)
+        zero = And_(fin, self.v == 0)
+        pinf = And_(Not_(self.nan), self.inf, Not_(self.v < 0))
+        return SymReal(If_(zero, -ONE, If_(pinf, ONE, r)), Or_(self.nan, neg), Or_(zero, pinf))
+
     def floor_real(self):
         return SymReal(z3.ToReal(z3.ToInt(self.v)), self.nan, self.inf)
 
@@ -1223,3 +1259,19 @@ def boolean(name):
 def concrete_value(x, model):
     """Evaluate a Sym scalar under a model dict -> python value (float/int/bool)."""
     raise NotImplementedError
+
+
+def log10_anchor(f):
+    """registers the concrete application log10(f) (f a positive finite float) with the S-log10 model of the current path,
+    so that symbolic applications are ordered relative to it"""
+    c = Ctx.cur
+    if c is None:
+        return
+    f = float(f)
+    if not (f > 0) or math.isinf(f):
+        return
+    apps = c.__dict__.setdefault('_log10_apps', [])
+    for (a, apos, ra) in apps:
+        if z3.is_rational_value(a) and float(a.as_fraction()) == f:
+            return
+    SymReal(rv(f)).log10()
